@@ -301,6 +301,67 @@ example :
     let r2 := findIdtor r1.1 ⟨none, .nothing, some .caller, some .library, true, some (20, 7), 21, 21, 21, false⟩
     caseBody r2.1.tbl r2.2 = some .free := by decide
 
+/-- `find_idtor` never changes a `case` that is already in the table (in particular the reserved
+    "nothing to delete" slot 0 stays what it is) -/
+theorem findIdtor_keeps_cases {w : World α} (hi : w.tbl.Inv) (x : FindIn α) {i : Nat} {d : Dtor}
+    (h : caseBody w.tbl i = some d) : caseBody (findIdtor w x).1.tbl i = some d := by
+  unfold findIdtor stmtBranch regBranch
+  simp only [addDestructor_eq]
+  repeat' split
+  all_goals first
+    | exact h
+    | exact caseBody_add_stable hi _ _ h
+
+/-- **(2) class without a wrapped destructor** (`~Class()` not declared in the YAML):
+    `compute_idtor` registers nothing and leaves the typemap's cached index at 0 = "not yet known";
+    the first constructor / owner(caller) pointer result of that class then does NOT take the cached
+    0 (which would mean "nothing to delete"): `find_idtor` registers `delete reinterpret_cast<T*>`
+    and the handle carries a non-zero index whose `case` is that `delete`. -/
+theorem unwrapped_destructor_owned_result_is_deleted {canon tmBody : α → Dtor} {w : World α}
+    (hw : WInv canon tmBody w) (hz : caseBody w.tbl 0 = some .nothing)
+    (x : FindIn α) (hx : x.Consistent canon tmBody)
+    (hdn : x.destructorName = none) (hfp : x.freePattern = none) (hcls : x.cxxToC = true)
+    (hco : x.callerOwned = true) (h1 : canon x.nm = .del x.ty) (h2 : tmBody x.tm = .del x.ty) :
+    let w' := computeIdtor w x.tm x.nm x.ty false
+    (findIdtor w' x).2 ≠ 0 ∧
+    caseBody (findIdtor w' x).1.tbl (findIdtor w' x).2 = some (.del x.ty) := by
+  intro w'
+  have hw' : WInv canon tmBody w' := computeIdtor_inv hw x.tm x.nm x.ty false h1 h2
+  have hz' : caseBody w'.tbl 0 = some .nothing := by
+    simpa [w', computeIdtor, World.setCache] using hz
+  obtain ⟨_, _, hown, _⟩ := findIdtor_matching hw' x hx
+  obtain ⟨d, hd, hne, hm⟩ := hown hdn hco
+  have hk : x.expectedKind = .cxx x.ty := by
+    simp [FindIn.expectedKind, FindIn.regKind, hdn, hfp, hcls]
+  rw [hk] at hm
+  have hdel : d = .del x.ty := by
+    cases d <;> simp_all [Dtor.Matches]
+  subst hdel
+  refine ⟨?_, hd⟩
+  intro h0
+  have := findIdtor_keeps_cases hw'.tinv x hz'
+  rw [h0] at hd
+  rw [hd] at this
+  exact absurd this (by simp)
+
+/-- non-vacuity, and the two neighbouring shapes: class 10 has a wrapped destructor (index 1 from
+    `compute_idtor`), class 20 has none: its constructor registers `delete` (index 2) and a later
+    owner(caller) result of class 20 reuses it; an owner(library) result of class 20 gets 0 -/
+example :
+    let w0 : World Nat := ⟨Table.init 0 .nothing, fun _ => 0⟩
+    let w1 := computeIdtor (computeIdtor w0 10 10 10 true) 20 20 20 false
+    let r2 := findIdtor w1 ⟨none, .nothing, none, some .caller, false, none, 20, 20, 20, true⟩
+    let r3 := findIdtor r2.1 ⟨none, .nothing, some .caller, some .library, true, none, 20, 20, 20, true⟩
+    let r4 := findIdtor r3.1 ⟨none, .nothing, some .library, some .library, true, none, 20, 20, 20, true⟩
+    (r2.2, r3.2, r4.2) = (2, 2, 0) ∧ caseBody r4.1.tbl 2 = some (.del 20) := by decide
+
+/-- why the cached index must be compared with the SAME zero the "unknown" marker is stored as: a
+    `find_idtor` that took a cached 0 for "known" would hand the caller-owned object index 0, whose
+    `case` releases nothing - the object is then never freed (leak) -/
+example :
+    ((run [.nothing, .del 1] St.init [.construct 0 1 0, .release 0]).heap 1).frees = 0 ∧
+    ((run [.nothing, .del 1] St.init [.construct 0 1 1, .release 0]).heap 1).frees = 1 := by decide
+
 /-- the run-time switch table of a generator table -/
 def Table.dtors (t : Table α Dtor) : List Dtor :=
   t.order.map (fun n => ((t.lookup n).map (·.lines)).getD .nothing)
